@@ -169,8 +169,13 @@ def worker_c(case: Dict[str, Any]) -> CaseResult:
                 violations.append(Violation(PROP, "single-" + clause, "scope %s, name %r, snake=%s: %s" % (scope, a, snake, detail), feats, replay_case,
                                             mech="variable-named-self-or-kwargs"))
                 return
+            # the listed pair findings are keyed by scope AND symptom (what the unchanged tree does with such a pair); a pair that goes wrong in any
+            # other way is a new violation, not the listed one
+            known_symptom = {"enum_values": "already defined as", "input_fields": "input model wire names", "object_fields": "is carried by 0 fields",
+                             "response_keys": "is carried by 0 fields", "variables": "duplicate argument"}.get(scope)
+            is_listed = (not case.get("single")) and known_symptom is not None and known_symptom in detail
             violations.append(Violation(PROP, ("single-" if case.get("single") else "pair-") + clause, "scope %s, names %r/%r, snake=%s: %s" % (scope, a, b, snake, detail),
-                                        feats, replay_case, mech=("c18:single-name:%s" % scope) if case.get("single") else ("pair-merged:%s" % scope)))
+                                        feats, replay_case, mech=("c18:single-name:%s" % scope) if case.get("single") else (("pair-merged:%s" % scope) if is_listed else ("c18:pair-other-symptom:%s" % scope))))
 
         try:
             pkg = import_package(root, "graphql_client")
@@ -233,6 +238,10 @@ def worker_c(case: Dict[str, Any]) -> CaseResult:
                 inst = cls.model_validate({a: 1, b: 2})
                 if inst.model_dump(by_alias=True, exclude_unset=True) != {a: 1, b: 2}:
                     bad("both-usable", "dump %r" % inst.model_dump(by_alias=True, exclude_unset=True))
+                for only in (a, b):  # a value given under one name must not also fill the other
+                    got_ = cls.model_validate({only: 5}).model_dump(by_alias=True, exclude_unset=True)
+                    if got_ != {only: 5}:
+                        bad("both-usable", "built from {%r: 5} the model dumps %r" % (only, got_))
         elif scope == "enum_values":
             mod = sys.modules["graphql_client.enums"]
             members = {m.value: m.name for m in mod.PairEnum}
